@@ -17,9 +17,10 @@ from .live import Probe
 ARGS = {"x": lambda x: x, "0": lambda x: 0, "1": lambda x: 1, "(x - 1 if x > 0 else 0)": lambda x: max(x - 1, 0)}
 REFS = {                       # term text by (reader space) -> (owner repr, name, how)
     "A": [("r", ("M.A", "r"), "name"), ("_space.r", ("M.A", "r"), "attr"), ("Ch.k", ("M.A.Ch", "k"), "attr"),
-          ("g", ("M", "g"), "name"), ("_model.A.Ch.k", ("M.A.Ch", "k"), "attr")],
+          ("g", ("M", "g"), "name"), ("_model.A.Ch.k", ("M.A.Ch", "k"), "attr"),
+          ("_space.g", ("M", "g"), "attr"), ("Ch.g", ("M", "g"), "attr")],     # seen there, owned by the model
     "A.Ch": [("k", ("M.A.Ch", "k"), "name"), ("_space.k", ("M.A.Ch", "k"), "attr"), ("g", ("M", "g"), "name"),
-             ("_model.A.r", ("M.A", "r"), "attr")],
+             ("_model.A.r", ("M.A", "r"), "attr"), ("_model.A.g", ("M", "g"), "attr")],
 }
 
 
@@ -37,7 +38,8 @@ def gen_spec(rnd, n=None):
             terms.append([j, rnd.choice(list(ARGS))])
         refs = rnd.sample(range(len(REFS[space])), rnd.randint(0, 2))
         cells.append({"name": "c%d" % i, "space": space, "terms": terms, "rec": rnd.random() < 0.3,
-                      "cached": rnd.random() > 0.3, "refs": refs})
+                      "cached": rnd.random() > 0.3, "refs": refs, "two": rnd.random() < 0.3,
+                      "refs_first": rnd.random() < 0.5})
     return {"cells": cells, "refvals": {"r": rnd.randint(1, 5), "k": rnd.randint(1, 5), "g": rnd.randint(1, 5)}}
 
 
@@ -56,15 +58,17 @@ def body(spec, i):
     parts = ["catch__(lambda: %s(%s))" % (callee_text(spec, i, j), a) for j, a in c["terms"]]
     if c["rec"]:
         parts.append("(catch__(lambda: %s(x - 1)) if x > 0 else 0)" % c["name"])
-    parts += [REFS[c["space"]][k][0] for k in c["refs"]]
+    rparts = [REFS[c["space"]][k][0] for k in c["refs"]]
+    parts = rparts + parts if c.get("refs_first") else parts + rparts
     parts.append("x")
     return " + ".join(parts)
 
 
 def source(spec, i):
     c = spec["cells"][i]
-    return ("def %s(x):\n    pre__(_space, %r, (x,))\n    return post__(_space, %r, (x,), %s)"
-            % (c["name"], c["name"], c["name"], body(spec, i)))
+    sig = "x, y=0" if c.get("two") else "x"      # the second parameter is always left at its default
+    return ("def %s(%s):\n    pre__(_space, %r, (x,))\n    return post__(_space, %r, (x,), %s)"
+            % (c["name"], sig, c["name"], c["name"], body(spec, i)))
 
 
 def build(spec, probe):
@@ -267,6 +271,33 @@ def run(case, judge):
                     raise Inconclusive("probe saw a call %s -> %s the spec does not contain" % (parent, kcell))
         cnt["probe_truth_crosschecks"] += len(seen_children)
 
+    def check_precedents(co, i, x, step, op):
+        """precedents: the references the element's own formula read (by name or by attribute path)"""
+        want = truth.refs_read((i, x))
+        try:
+            prec = co.precedents(x)
+        except Exception as e:     # noqa
+            V("C08", "precedents-raise", "precedents() raises for an element holding a value",
+              element=[i, x], error=type(e).__name__, step=step, op=op)
+            return
+        refnames = set()
+        for p in prec:
+            if type(p).__name__ == "ReferenceNode":
+                try:
+                    fn = p.obj.fullname
+                except Exception:    # noqa
+                    fn = repr(p)
+                refnames.add(fn)
+        cnt["precedents_checks"] += 1
+        for (owner, name), how, own in want:
+            if not own:
+                continue        # read inside an uncached callee: not the element's own formula
+            full = owner + "." + name
+            if full not in refnames:
+                V("C08", "precedents", "precedents() misses a reference the formula read by %s"
+                  % ("attribute path" if how == "attr" else "name"),
+                  element=[i, x], missing=full, got=sorted(refnames), step=step, op=op)
+
     def c08_check(step, op):
         he = held_elems(m, spec)
         inputs = input_elems(m, spec)
@@ -309,6 +340,7 @@ def run(case, judge):
                 except Exception as e:     # noqa
                     V("C08", "preds-raise", "preds()/succs() raises for an element holding a value",
                       element=[i, x], error=type(e).__name__, step=step, op=op)
+                check_precedents(co, i, x, step, op)
                 continue
             pe, po = truth.cached_preds((i, x))
             try:
@@ -323,32 +355,7 @@ def run(case, judge):
                 V("C08", "preds", "preds() differs from the calls the formula made", element=[i, x],
                   got_elems=sorted(ge), got_objs=sorted(go), exp_elems=sorted(pe), exp_objs=sorted(po),
                   step=step, op=op)
-            # precedents: preds + references read
-            want = truth.refs_read((i, x))
-            try:
-                prec = co.precedents(x)
-            except Exception as e:     # noqa
-                V("C08", "precedents-raise", "precedents() raises for an element holding a value",
-                  element=[i, x], error=type(e).__name__, step=step, op=op)
-                continue
-            refnames = set()
-            for p in prec:
-                if type(p).__name__ == "ReferenceNode":
-                    try:
-                        fn = p.obj.fullname
-                    except Exception:    # noqa
-                        fn = repr(p)
-                    refnames.add(fn)
-            cnt["precedents_checks"] += 1
-            for (owner, name), how, own in want:
-                if not own:
-                    continue        # read inside an uncached callee: not the element's own formula
-                full = owner + "." + name
-                if full not in refnames:
-                    V("C08", "precedents", "precedents() misses a reference the formula read by %s%s"
-                      % ("attribute path" if how == "attr" else "name",
-                         "" if own else " (inside an uncached cells it called)"),
-                      element=[i, x], missing=full, got=sorted(refnames), step=step, op=op)
+            check_precedents(co, i, x, step, op)
         for (i, x) in sorted(he):
             co = cell_obj(m, spec, i)
             try:
@@ -398,8 +405,12 @@ def run(case, judge):
             c2 = collections.Counter(el for el in ents if truth.cached(el[0]))
             if any(n > 1 for n in c2.values()):
                 V("C06", "twice", "a cached element executed twice in one evaluation", step=step, op=op)
-            if (i, x) in inputs_before and v != dict(co)[x]:
+            if (i, x) in inputs_before and v != state_of(m, spec).get((i, x)):
                 V("C06", "input-value", "the cells does not return the assigned value", step=step, op=op)
+            if isinstance(v, tuple) and len(v) == 2 and v[0] == "ERR":
+                # no formula of these models can fail on its own
+                for p_ in judge:
+                    V(p_, "eval-raised", "an evaluation raised %s although no formula fails" % v[1], step=step, op=op)
         elif k == "fail_caught":
             i, x = op["i"], op["x"]
             co = cell_obj(m, spec, i)
@@ -473,23 +484,39 @@ def run(case, judge):
                 if probe.log:
                     V("C06", "kept-recomputed", "a kept element's formula ran again when it was requested",
                       events=[list(e[1:4]) for e in probe.log[:3]], step=step, op=op)
-        elif k == "clear":
+        elif k in ("clear", "clear_all"):
             i = op["i"]
             co = cell_obj(m, spec, i)
-            co.clear()
+            # what goes: the computed (clear) or all (clear_all) elements of the cells, and their dependents
+            going = {e for e in before if e[0] == i and (k == "clear_all" or e not in inputs_before)}
+            deps = set()
+            for e in going:
+                deps |= truth.dependents(before, e, inputs_before)
+            exp = before - going - deps
+            if k == "clear":
+                co.clear()
+            else:
+                co.clear_all()
+            after = held_elems(m, spec)
             after_in = input_elems(m, spec)
-            if not inputs_before <= after_in:
-                V("C06", "clear-inputs", "clear() removed assigned values", lost=sorted(inputs_before - after_in)[:4],
-                  step=step, op=op)
             cnt["clears"] += 1
-        elif k == "clear_all":
-            i = op["i"]
-            cell_obj(m, spec, i).clear_all()
-            after_in = input_elems(m, spec)
-            gone = {e for e in inputs_before if e[0] != i} - after_in
-            if gone:
-                V("C06", "clearall-other-inputs", "clear_all() of one cells removed assigned values of another",
-                  lost=sorted(gone)[:4], step=step, op=op)
+            keep_in = inputs_before if k == "clear" else {e for e in inputs_before if e[0] != i}
+            if not keep_in <= after_in:
+                V("C06", "clear-inputs", "%s() removed assigned values it must keep" % k,
+                  lost=sorted(keep_in - after_in)[:4], step=step, op=op)
+            elif truth.cached(i) and after != exp:
+                extra, lost = after - exp, exp - after
+                V("C06", "clear-held-set",
+                  "%s() kept a dependent of a cleared element" % k if extra
+                  else "%s() discarded a value that does not depend on the cleared elements" % k,
+                  kept_wrongly=sorted(extra)[:4], lost_wrongly=sorted(lost)[:4], step=step, op=op)
+            else:
+                probe.reset()
+                for (i2, x2) in sorted(after):
+                    cell_obj(m, spec, i2)(x2)
+                if probe.log:
+                    V("C06", "kept-recomputed", "a kept element's formula ran again when it was requested",
+                      events=[list(e[1:4]) for e in probe.log[:3]], step=step, op=op)
         elif k == "refchange":
             owner = {"r": m.A, "k": m.A.Ch, "g": m}[op["ref"]]
             setattr(owner, op["ref"], op["value"])
